@@ -266,3 +266,33 @@ fn ay_set_regs_selection() {
     kani::assert(c.mixer.ay.verif_regs() == regs, "C14: every AY register reads back as restored");
     kani::cover!(true);
 }
+
+/// C06 (bit-precise twin of the Verus contract of `write_7ffd`; every 128K paging state x every value):
+/// the state before is any state satisfying the paging invariant (reached by restoring any latch value),
+/// afterwards the map is again the function of the latch the statement gives, an accepted write is the
+/// latch, a locked machine ignores the write. Used by `check` to tell a Verus proof that merely got
+/// stuck (needs a bit-vector hint after a harmless rewrite) from a refutation.
+#[kani::proof]
+#[kani::unwind(17)]
+#[kani::stub(libm::sqrt, sqrt_stub)]
+fn write_7ffd_paging_twin() {
+    use crate::zx::memory::Page;
+    let mut c = ZXController::<VHost>::new(&settings(ZXMachine::Sinclair128K, false, false, false), VContext);
+    let l0: u8 = kani::any();
+    c.restore_7ffd(l0);
+    kani::assert(c.memory.get_page(0xC000) == Page::Ram(l0 & 7) && c.memory.get_page(0) == Page::Rom((l0 >> 4) & 1)
+        && c.verif_paging_enabled() == (l0 & 0x20 == 0), "C06: twin start state satisfies the paging invariant");
+    let enabled = c.verif_paging_enabled();
+    let clk = c.frame_clocks;
+    let val: u8 = kani::any();
+    c.write_7ffd(val);
+    let latch = c.read_7ffd();
+    kani::assert(latch == if enabled { val } else { l0 }, "C06: an accepted paging write is the latch, a locked machine ignores it");
+    kani::assert(c.memory.get_page(0xC000) == Page::Ram(latch & 7), "C06: 0xC000 shows the bank the latch selects");
+    kani::assert(c.memory.get_page(0x0000) == Page::Rom((latch >> 4) & 1), "C06: ROM page follows latch bit 4");
+    kani::assert(c.memory.get_page(0x4000) == Page::Ram(5) && c.memory.get_page(0x8000) == Page::Ram(2), "C06: fixed windows stay banks 5 and 2");
+    kani::assert(c.verif_paging_enabled() == (latch & 0x20 == 0), "C06: paging is enabled exactly while latch bit 5 is clear");
+    kani::assert(c.verif_screen_bank() == if latch & 0x08 == 0 { 5 } else { 7 }, "C06: displayed bank follows latch bit 3");
+    kani::assert(c.frame_clocks == clk, "C06: a paging write takes no time by itself");
+    kani::cover!(true);
+}
